@@ -331,7 +331,7 @@ func (in *Interp) conv(tDst, tSrc types.Type, x value) value {
 		}
 		if w, signedDst, ok := intWidth(ud); ok && w > 0 {
 			switch xv := x.(type) {
-			case msgByte:
+			case msgByte, padByte:
 				return tc.Const(w, 0)
 			case *Term:
 				_, signedSrc, _ := isInt(us)
